@@ -14,23 +14,31 @@ from tools.lib import core
 PROP = 'C20'
 
 MANIFEST = dict(
-    technique='Coq proof (induction over strings, type trees and namespace trees) about a model of the HTML templates whose filters, '
-              'escape function, autoescape configuration and template names are re-translated from /repo on every run; extracted '
-              'model vs. real `nnvg --target-language html` output compared as html.parser token streams',
-    text='Theorems in coq/theories/Properties/C20.v: both escape functions in use (html.escape model, translated markupsafe escape) '
-         'leave no <, >, quote or stray & and are inverted by entity decoding, for every string; a documentation sink is character '
-         'data for every text iff the sink escapes, and the decision computed from the regenerated template names/autoescape '
-         'configuration is "does not escape" (refuted by witness: known finding F-HTML-ESCAPE; partial: texts free of the five '
-         'special characters, and every position that passes through make_unique); the element emitter mirroring '
-         'generate_type_info/generate_namespace_info/generate_sidebar_view is balanced for every type tree, namespace tree and '
-         'generator state, and scanning its rendering gives back its pieces when the inserted texts cannot open markup; every type '
-         'link on a root-namespace page resolves to an id the target page produces for every site closed under references '
-         '(refuted for nested-namespace pages and service request/response types: findings F-HTML-LINK-SUBNS, F-HTML-LINK-SVC).',
-    note='Trusted: Coq kernel; T2 translator (tools/translators/gen_c20.py on top of pyfun_tr.py); extraction (ExtrOcamlBasic only) + '
-         'ocaml/c20_driver.ml; Python html.parser as the reference tokenizer of the correspondence. The macro structure of the '
-         'templates is hand-modelled (Gen/HtmlModel.v) and validated against the real output, not verified; the static frame of '
-         'Namespace.j2 (head, search box, scripts) is only parsed and balance-checked, not modelled. Numbers printed by the templates '
-         '(extent, max length) are canonicalised away.',
+    technique='Coq proof (induction over strings, type trees, namespace trees and template-skeleton expansions) about a model of the '
+              'HTML generator whose filters, escape function, autoescape configuration, template names, template skeletons, output-site '
+              'table and macro call structure are re-translated from /repo on every run; extracted model vs. real '
+              '`nnvg --target-language html` output compared as html.parser token streams',
+    text='Theorems in coq/theories/Properties/C20.v. Escaping: both escape functions in use (html.escape model, translated markupsafe '
+         'escape) leave no <, >, quote or stray & and are inverted by entity decoding, for every string; a documentation sink is '
+         'character data for every text iff it escapes (unescaped sink refuted by witness <script>alert(1)</script>; this was finding '
+         'F-HTML-ESCAPE, fixed in /repo by `| e` on the five sinks); all_dsdl_text_sinks_escaped holds of the regenerated table of '
+         'every {{ }} output site (expression parsed with Jinja operator precedence, looked through {% set %} variables and macro '
+         'arguments, `safe` tracked): each site is a template constant, number, DSDL identifier, escaped AS A WHOLE, or display_type '
+         'markup in a text position. Well-formedness: the checker skeleton_balanced is sound for every instantiation of a template '
+         'skeleton (any branches, loop counts, attributes, text, balanced site contents, macro calls/includes incl. recursion), every '
+         'regenerated skeleton of every template/macro passes, and scanning the rendered characters gives a well-formed token stream '
+         'when inserted values cannot open markup; the hand-mirrored emitter (exact ids/hrefs/text) is balanced for every tree and '
+         'state, and the regenerated call/guard structure of the macros equals the inlining structure it assumes. Links: the anchor in '
+         'a type URL is filter_tag_id (both translated); every listed type has its id on its namespace page; on a root-namespace page '
+         'every type link resolves for every site closed under references; nested-namespace pages and service request/response halves '
+         'are decided per state of the working tree (findings F-HTML-LINK-SUBNS, F-HTML-LINK-SVC live now; patch in '
+         'design_notes/C20_links_fix.patch makes both theorems evaluate to "resolves").',
+    note='Trusted: Coq kernel; T2 translator tools/translators/gen_c20.py on pyfun_tr.py (filters) and its template scanner (Jinja '
+         'lexer, HTML state machine, Jinja expression parser/classifier; fails closed on constructs it cannot classify); extraction '
+         '(ExtrOcamlBasic only) + ocaml/c20_driver.ml; Python html.parser as reference tokenizer of oracle and correspondence. The '
+         'emitter model Gen/HtmlModel.v is validated against the real output on every run (namespace trees up to six levels deep, '
+         'cross-root and deep cross-level references), not verified. Numbers printed by the templates are canonicalised away. '
+         'Not proved: a general any-depth link-resolution theorem for the patched state (witness sites + correspondence only).',
     design='§5 C20')
 
 HARNESS = os.path.join(core.VERIF, 'tools', 'harness', 'c20_impl.py')
@@ -157,12 +165,18 @@ class CaseGen:
         nss: typing.List[typing.List[str]] = []
         for root in roots:
             nss.append([root])
+            if r.random() < 0.35:   # a chain five or six levels deep; types land on every level and reference each other freely
+                chain = [root]
+                for lvl in range(r.choice([4, 5])):
+                    chain = chain + [r.choice(['l', 'm_n', 'k']) + str(lvl)]
+                    nss.append(chain)
+                nss.append(chain)       # weight the deepest level
             for i in range(r.choice([0, 1, 1, 2])):
                 sub = [root, r.choice(['sub', 'b_c', 'deep', 'n1']) + str(i)]
                 nss.append(sub)
                 if r.random() < 0.35:
                     nss.append(sub + [r.choice(['inner', 'x_y'])])
-        n_types = r.choice([2, 3, 4, 5, 6])
+        n_types = r.choice([2, 3, 4, 5, 6]) + (3 if any(len(x) >= 5 for x in nss) else 0)
         for i in range(n_types):
             ns = r.choice(nss)
             root = ns[0]
@@ -211,6 +225,17 @@ CORPUS = [
                         'sub/Outer.1.2.dsdl': 'rega.Inner.1.0 inner\nrega.Inner.1.0[3] arr\nregb.Other.1.0 other\nuint8[<=10] bytes\nvoid3\n@sealed\n',
                         'Svc.1.0.dsdl': 'uint8 a\n@sealed\n---\nrega.Inner.1.0[<=2] r\n@sealed\n'},
                'regb': {'Other.1.0.dsdl': 'float32 f\nuint8 LT = \'<\'\n@sealed\n'}}},
+    # namespaces six levels deep with references into the deep levels, out of them, and between them
+    {'id': 'k-deep', 'flavour': 'benign', 'docs': [],
+     'roots': {'deep': {'Top.1.0.dsdl': 'deep.a.b.c.d.e.Leaf.1.0 leaf\ndeep.a.b.c.d.Mid.1.0[<=2] mids\ndeep.a.b.Third.1.0 third\n@sealed\n',
+                        'Root0.1.0.dsdl': 'uint8 r\n@sealed\n',
+                        'a/Up.1.0.dsdl': 'uint8 y\n@sealed\n',
+                        'a/b/Third.1.0.dsdl': 'deep.a.b.c.d.e.Leaf.1.0 leaf\n@sealed\n',
+                        'a/b/c/Fourth.1.0.dsdl': 'uint16 f\n@sealed\n',
+                        'a/b/c/d/Mid.1.0.dsdl': 'deep.a.Up.1.0 u\ndeep.a.b.c.Fourth.1.0 f\n@sealed\n',
+                        'a/b/c/d/e/Leaf.1.0.dsdl': 'uint8 x\n@sealed\n',
+                        'a/b/c/d/e/Back.1.0.dsdl': 'deep.Root0.1.0 r\ndeep.a.b.c.d.e.Leaf.1.0[2] l\nother.x.y.z.w.Far.1.0 far\n@sealed\n'},
+               'other': {'x/y/z/w/Far.1.0.dsdl': 'deep.a.b.c.d.e.Leaf.1.0 leaf\n@sealed\n', 'Near.1.0.dsdl': 'other.x.y.z.w.Far.1.0 far\n@sealed\n'}}},
 ]
 ESCAPE_WITNESS = CORPUS[0]
 
@@ -629,7 +654,8 @@ def main(chk: core.Check, replay: typing.Optional[str] = None) -> int:
     chk.proof_coverage(res, [
         'T2 translator tools/translators/gen_c20.py (on pyfun_tr.py): filter_tag_id, filter_url_from_type, filter_make_unique, '
         'filter_namespace_doc, markupsafe escape, select_autoescape keyword data + shape check of its decision function, template '
-        'file names, documentation sinks and their explicit escape filters',
+        'file names, documentation sinks and their explicit escape filters, shape of the type-link prefix; generator htmlskel: Jinja '
+        'lexer + HTML state machine + Jinja expression parser/classifier producing template skeletons and the output-site table',
         'hand models in Gen/HtmlBase.v / Gen/HtmlModel.v: html.escape, UniqueNameGenerator, the template macros, URL resolution, '
         'the tag scanner -- validated by the correspondence run below, not verified',
         'extraction: Require Extraction ExtrOcamlBasic only; OCaml 4.13.1; ocaml/c20_driver.ml',
@@ -645,7 +671,7 @@ def main(chk: core.Check, replay: typing.Optional[str] = None) -> int:
     work = core.scratch('nnvverif-c20-')
 
     # 2. probe the listed findings on the implementation
-    probe_cases = [json.loads(json.dumps(c)) for c in CORPUS]
+    probe_cases = [json.loads(json.dumps(c)) for c in CORPUS[:2]]
     for c in probe_cases:
         c['id'] = 'probe-' + c['id']
     probe_impl = run_impl(work, probe_cases, jobs=2)
@@ -691,7 +717,8 @@ def main(chk: core.Check, replay: typing.Optional[str] = None) -> int:
 
     stats = {'cases': len(cases), 'pages': 0, 'pages_compared': 0, 'regions_compared': 0, 'oracle_failures_known': 0,
              'flavour': {}, 'hrefs_checked': 0, 'ids_compared': 0, 'benign_pages_scan_wf': 0, 'model_used': {'F': 0, 'C': 0},
-             'sentinel_docs': 0, 'type_links': 0, 'cross_root_links': 0, 'selftest_evals': st_n, 'nnvg_runs': 0}
+             'sentinel_docs': 0, 'type_links': 0, 'cross_root_links': 0, 'selftest_evals': st_n, 'nnvg_runs': 0,
+             'max_namespace_depth': 0, 'cases_with_depth_ge_5': 0, 'links_into_depth_ge_4': 0}
     distinct = set()
     violations_found: typing.List[dict] = []
     corr_bad: typing.List[dict] = []
@@ -705,6 +732,9 @@ def main(chk: core.Check, replay: typing.Optional[str] = None) -> int:
             corr_bad.append({'case': case, 'what': 'generator or dump failed on a valid namespace', 'detail': o['err'], 'cli': o.get('cli')})
             continue
         stats['pages'] += len([r for r in pages if r.endswith('.html')])
+        depth = max([r.count('/') for r in pages if r.endswith('/index.html')] or [0])
+        stats['max_namespace_depth'] = max(stats['max_namespace_depth'], depth)
+        stats['cases_with_depth_ge_5'] += depth >= 5
         stats['sentinel_docs'] += sum(1 for d in case.get('docs', []) if any(ch in d for ch in SPECIALS))
         special = doc_has_special(case)
         # which model applies: the quirk-faithful one while F-HTML-ESCAPE reproduces, else the conformant one
@@ -730,6 +760,7 @@ def main(chk: core.Check, replay: typing.Optional[str] = None) -> int:
                             continue
                         stats['hrefs_checked'] += 1
                         stats['type_links'] += 1
+                        stats['links_into_depth_ge_4'] += h.split('#')[-1].count('_') >= 6 and '#' in h
                         if h.startswith('../') and not h.startswith('../' + p['rel'].split('/')[0] + '/'):
                             stats['cross_root_links'] += 1
                         if okm == ((p['rel'], h) in realf) and p['rel'] in pages:
